@@ -29,6 +29,18 @@ partial def parseFGraph (j : Json) : Except String FGraph := do
   return .mk nodes
 end
 
+partial def parseRGraph (j : Json) : Except String RGraph := do
+  let nodesJ ← j.getObjValAs? (Array Json) "nodes"
+  let nodes ← nodesJ.toList.mapM (fun nj => do
+    let reqJ ← nj.getObjValAs? (Array Json) "req"
+    let req ← reqJ.toList.mapM (fun p => do
+      let x ← p.getArr?
+      return (← (x[0]!).getStr?, ← (x[1]!).getNat?))
+    let subsJ ← nj.getObjValAs? (Array Json) "subs"
+    let subs ← subsJ.toList.mapM parseRGraph
+    return RNode.mk req subs)
+  return .mk nodes
+
 def instJson (e : Inst) : Json := Json.arr #[e.1.1, e.1.2, toJson e.2]
 def pairJson (p : String × Nat) : Json := Json.arr #[p.1, toJson p.2]
 
@@ -79,6 +91,13 @@ def handle (req : Json) : Json :=
                                        ("collected", Json.arr ((collectG g).map instJson).toArray),
                                        ("used", Json.arr used.toArray)]
       | none => return Json.mkObj [("err", "runtime"), ("used", Json.arr used.toArray)]
+    | "reqs" =>
+      -- requirement collection of a (function body) build over nested bodies, and the imports from it
+      let g ← parseRGraph (← req.getObjVal? "g")
+      let model ← pairs req "model"
+      let imp := funcImports (reqG g) (policy model)
+      return Json.mkObj [("req", Json.arr ((reqG g).map pairJson).toArray),
+                         ("imports", Json.arr (imp.map pairJson).toArray)]
     | "policy" =>
       let body ← pairs req "body"
       let model ← pairs req "model"
